@@ -87,7 +87,7 @@ def check_decls(repo_dir):
 TYPES = r'''
 // ---- stand-ins for the name enums (opaque: the lookups only compare them) and small enums
 #[derive(Clone, Copy, PartialEq, Eq, Structural)]
-pub enum ElementName { ShortName, VxOther(u16) }
+pub enum ElementName { ShortName, Autosar, VxOther(u16) }
 #[derive(Clone, Copy, PartialEq, Eq, Structural)]
 pub enum AttributeName { Dest, VxOther(u16) }
 #[derive(Clone, Copy, PartialEq, Eq, Structural)]
